@@ -210,6 +210,7 @@ class Function:
         self.prog = prog
         self.sig = d["sig"]
         self.name = d["name"]
+        self.gname = _strip_targs(d["name"])      # qualified name without any template arguments
         self.tname = d["tname"]
         self.short = d["short"]
         self.cls = d.get("cls")
@@ -578,6 +579,28 @@ class Function:
                     out.write("   %2d: %s\n" % (i, json.dumps(e)))
             if "term" in b:
                 out.write("    T: %s cond=%s\n" % (b.get("tk"), self.r(b["cond"]) if "cond" in b else None))
+
+
+def _strip_targs(s):
+    out, depth, i = [], 0, 0
+    while i < len(s):
+        if s.startswith("operator", i):
+            j = i + 8
+            while j < len(s) and s[j] in "<>=-!+*/%&|^~[]()":
+                j += 1
+            if depth == 0:
+                out.append(s[i:j])
+            i = j
+            continue
+        c = s[i]
+        if c == "<":
+            depth += 1
+        elif c == ">" and depth > 0:
+            depth -= 1
+        elif depth == 0:
+            out.append(c)
+        i += 1
+    return "".join(out)
 
 
 def _dominators(blocks, entry, succ, preds):
